@@ -4,24 +4,32 @@ open Datatypes
 
 module N =
  struct
-  (** val coq_lor : coq_N -> coq_N -> coq_N **)
+  (** val compare : coq_N -> coq_N -> comparison **)
 
-  let coq_lor n m =
+  let compare n m =
     match n with
-    | N0 -> m
+    | N0 -> (match m with
+             | N0 -> Eq
+             | Npos _ -> Lt)
+    | Npos n' -> (match m with
+                  | N0 -> Gt
+                  | Npos m' -> Pos.compare n' m')
+
+  (** val eqb : coq_N -> coq_N -> bool **)
+
+  let eqb n m =
+    match n with
+    | N0 -> (match m with
+             | N0 -> true
+             | Npos _ -> false)
     | Npos p -> (match m with
-                 | N0 -> n
-                 | Npos q -> Npos (Pos.coq_lor p q))
+                 | N0 -> false
+                 | Npos q -> Pos.eqb p q)
 
-  (** val to_nat : coq_N -> nat **)
+  (** val leb : coq_N -> coq_N -> bool **)
 
-  let to_nat = function
-  | N0 -> O
-  | Npos p -> Pos.to_nat p
-
-  (** val of_nat : nat -> coq_N **)
-
-  let of_nat = function
-  | O -> N0
-  | S n' -> Npos (Pos.of_succ_nat n')
+  let leb x y =
+    match compare x y with
+    | Gt -> false
+    | _ -> true
  end
